@@ -60,6 +60,7 @@ def scratch():
 
 
 _STATS = re.compile(r'^(\d+) states generated, (\d+) distinct states found, (\d+) states left on queue')
+_PROGRESS = re.compile(r'^Progress\(\d+\) at [^:]+:\d\d:\d\d: ([\d,]+) states generated .*?([\d,]+) distinct states found .*?([\d,]+) states left on queue')
 _SIMSTATS = re.compile(r'The number of states generated: (\d+)')
 
 
@@ -136,6 +137,10 @@ def run_tlc(module, cfg, workers=8, timeout=600, env=None, simulate=None, depth=
         m = _STATS.match(line)
         if m:
             r.generated, r.distinct, r.queue = int(m.group(1)), int(m.group(2)), int(m.group(3))
+        m = _PROGRESS.match(line)
+        if m and not r.distinct:        # a time-limited run ends without the summary line: keep the last progress report
+            r.generated, r.queue = int(m.group(1).replace(',', '')), int(m.group(3).replace(',', ''))
+            r._progress_distinct = int(m.group(2).replace(',', ''))
         m = _SIMSTATS.search(line)
         if m:
             r.generated = max(r.generated, int(m.group(1)))
@@ -152,6 +157,8 @@ def run_tlc(module, cfg, workers=8, timeout=600, env=None, simulate=None, depth=
     if r.invariant_violated and allow_violation:
         return r
     if r.timed_out and allow_timeout:
+        if not r.distinct:
+            r.distinct = getattr(r, '_progress_distinct', 0)
         return r
     if not r.ok and not (allow_violation and r.invariant_violated):
         if r.invariant_violated:
